@@ -104,6 +104,7 @@ func checkRangeReentryAgreement(p *Program, r *Report, rule string) {
 			// variable it captured, or a field behind a pointer it was bound to — not a field of its own copy of a
 			// value receiver
 			visible := false
+			var visibleStores []*ssa.Store
 			for _, ret := range Returns(body) {
 				for _, rv := range ret.Results {
 					if _, isK := rv.(*ssa.Const); !isK {
@@ -129,6 +130,8 @@ func checkRangeReentryAgreement(p *Program, r *Report, rule string) {
 						}
 						break
 					}
+					was := visible
+					visible = false
 					switch y := root.(type) {
 					case *ssa.FreeVar:
 						visible = true
@@ -142,6 +145,10 @@ func checkRangeReentryAgreement(p *Program, r *Report, rule string) {
 							visible = true
 						}
 					}
+					if visible {
+						visibleStores = append(visibleStores, st)
+					}
+					visible = visible || was
 				}
 			}
 			_ = bound
@@ -150,6 +157,45 @@ func checkRangeReentryAgreement(p *Program, r *Report, rule string) {
 				continue
 			}
 			r.Check(len(bases) >= 2, rule, c, p.Pos(in.Pos()), "the discarded second analysis of a range body is compared with the first: actions must get the same sanitizers in both", "the acceptance callback of the range re-entry analysis does not compare the action edits of the two analyses")
+			// each kind of edit that depends on the context (the sanitizers of an action, the callee of a template
+			// call) is compared in a loop of its own, and what that loop finds is recorded
+			if len(bases) >= 2 && len(visibleStores) > 0 {
+				for _, kind := range []string{"actionNodeEdits", "templateNodeEdits"} {
+					loops, recorded := 0, false
+					for _, bb := range body.Blocks {
+						for _, ins := range bb.Instrs {
+							nx, ok := ins.(*ssa.Next)
+							if !ok {
+								continue
+							}
+							rg, ok := nx.Iter.(*ssa.Range)
+							if !ok {
+								continue
+							}
+							ld, ok := rg.X.(*ssa.UnOp)
+							if !ok {
+								continue
+							}
+							fa, ok := ld.X.(*ssa.FieldAddr)
+							if !ok || fieldName(fa.X.Type(), fa.Field) != kind {
+								continue
+							}
+							loops++
+							if len(bb.Succs) == 2 {
+								for _, vs := range visibleStores {
+									if bb.Succs[0].Dominates(vs.Block()) {
+										recorded = true
+									}
+								}
+							}
+						}
+					}
+					if loops == 0 {
+						continue // compared in another way: the rule above stands alone
+					}
+					r.Check(recorded, rule, c+"#records:"+kind, p.Pos(in.Pos()), "a difference found in the loop over "+kind+" is recorded where escapeBranch sees it", "the acceptance callback ranges over "+kind+" of the second analysis but records nothing it finds there: a range body whose second iteration needs other sanitizers (or another context-specific callee) is accepted with those of the first")
+				}
+			}
 		}
 	}
 	if n == 0 {
